@@ -208,3 +208,35 @@ package ro
 //@   props C06
 //@   track chmake chrecv.* chclose.* chsend.*
 //@   ensures [signals-once|C06] trace(chsend.ch)
+
+// ---------------------------------------------------------------------------
+// subscriber.go: construction, and the reuse rule (C02: the mode that serialises a stage)
+// ---------------------------------------------------------------------------
+
+//@ func newSubscriberImpl
+//@   props C01 C02 C03
+//@   maypanic
+//@   track destination.* call.NewSubscription
+//@   ensures [reuse-only-if-it-synchronises-as-much|C02] result == destination ==> mode == 1 || !is_psubscriberImpl_T_(destination) || asserted(destination).mode == mode || asserted(destination).mode == 0
+//@   ensures [fresh-gate-is-open-and-uses-the-given-lock|C01,C02] result != destination ==> result.status == 0 && result.mu == mu && result.backpressure == backpressure && result.destination == destination && result.mode == mode
+//@   ensures [fresh-gate-joins-downstream-teardown|C03] result != destination && is_Subscription(destination) ==> called(destination.Add)
+
+//@ func NewSubscriberWithConcurrencyMode
+//@   props C02
+//@   maypanic
+//@   track call.*
+//@   ensures [safe-mode-gets-a-real-lock|C02] mode == 0 ==> trace(call.NewMutexWithLock(), call.newSubscriberImpl(mode, res(call.NewMutexWithLock), 0, destination))
+//@   ensures [unsafe-mode-gets-the-no-op-lock|C02] mode == 1 ==> trace(call.NewMutexWithoutLock(), call.newSubscriberImpl(mode, res(call.NewMutexWithoutLock), 0, destination))
+//@   ensures [eventually-safe-mode-drops-on-contention|C02] mode == 2 ==> trace(call.NewMutexWithLock(), call.newSubscriberImpl(mode, res(call.NewMutexWithLock), 1, destination))
+//@   ensures [other-modes-rejected] panics ==> mode != 0 && mode != 1 && mode != 2
+
+//@ func (*observableImpl).SubscribeWithContext
+//@   props C01 C02 C03 C07 C14
+//@   panicforks
+//@   alias gate=NewSubscriberWithConcurrencyMode()
+//@   track call.NewSubscriberWithConcurrencyMode callfn.subscribe NewSubscriberWithConcurrencyMode().* call.newObservableError
+//@   ensures [destination-is-wrapped-in-a-gate-of-the-observable-mode|C01,C02] arg(call.NewSubscriberWithConcurrencyMode, 0) == destination && arg(call.NewSubscriberWithConcurrencyMode, 1) == s.mode
+//@   ensures [subscribe-sees-only-the-gate|C01] arg(callfn.subscribe, 0) == ctx && arg(callfn.subscribe, 1) == res(call.NewSubscriberWithConcurrencyMode)
+//@   ensures [teardown-registered|C03,C14] !panicked(subscribe) && !caught ==> trace(call.NewSubscriberWithConcurrencyMode(_, _), callfn.subscribe(_, _), gate.Add(res(callfn.subscribe)))
+//@   ensures [panic-becomes-error-then-release|C07] panicked(subscribe) ==> trace(call.NewSubscriberWithConcurrencyMode(_, _), callfn.subscribe(_, _), gate.ErrorWithContext(ctx, newObservableError(recoverValueToError(panicval(subscribe)))), gate.Unsubscribe())
+//@   ensures [returns-the-gate|C01] result == res(call.NewSubscriberWithConcurrencyMode)
